@@ -114,7 +114,7 @@ impl Scenario for MatchScenario {
 		if self.hold_once { &["client:send_task:before_handle", "tx:send", "tx:send:returning"] } else { &[] }
 	}
 	fn setup(&self) -> CliState {
-		clim::setup(&CliScenarioCfg { rx_split: self.rx_split_ping_ms.is_some(), ping_ms: self.rx_split_ping_ms, warmup: self.warmup, id_kind: self.id_kind, ops: self.ops.clone(), env: self.env(), fail_send_at: None, tx_points: self.tx_points, buffer_cap: 4, late_after: if self.ops.contains(&FeOp::LateSubscribe) { 1 } else { 0 } })
+		clim::setup(&CliScenarioCfg { rx_split: self.rx_split_ping_ms.is_some(), ping_ms: self.rx_split_ping_ms, send_ping_ms: None, fail_ping: false, warmup: self.warmup, id_kind: self.id_kind, ops: self.ops.clone(), env: self.env(), fail_send_at: None, tx_points: self.tx_points, buffer_cap: 4, late_after: if self.ops.contains(&FeOp::LateSubscribe) { 1 } else { 0 } })
 	}
 	fn judge(&self, st: CliState, _trace: &[String], panics: &[String], status: Status) -> Verdict {
 		let mut v = Vec::new();
@@ -185,7 +185,7 @@ impl Scenario for MatchScenario {
 						FeOp::Subscribe | FeOp::SubscribeDrop | FeOp::SubscribeHold | FeOp::LateSubscribe if self.extras.contains(&Extra::ConstSubscriptionId) => "Subscription(Str(\"SX\"))".to_string(),
 						FeOp::Subscribe | FeOp::SubscribeDrop | FeOp::SubscribeHold | FeOp::LateSubscribe => format!("Subscription(Str(\"S{k}\"))"),
 						FeOp::Batch(n) | FeOp::LateBatch(n) => format!("[{}]", (0..*n).map(|j| format!("\"r{k}.{j}\"")).collect::<Vec<_>>().join(",")),
-						FeOp::Notif | FeOp::RegisterNotif => "sent".into(),
+						FeOp::Notif | FeOp::RegisterNotif | FeOp::NotifBurst(_) => "sent".into(),
 					};
 					// batch summaries carry `#s..f..o..` after the entry list; C03 compares the entries
 					let r_full = r.clone();
